@@ -101,7 +101,7 @@ func raceCaches(x *mc.Cell) {
 }
 
 func raceOpens(x *mc.Cell) {
-	for round := 0; round < raceRounds(x)*5; round++ {
+	for round := 0; round < raceRounds(x); round++ {
 		x.Executions++
 		mc.Bubble(x.T, func() {
 			n, err := l2node.NewNode(l2node.Opts{Types: []string{"T"}})
@@ -110,12 +110,29 @@ func raceOpens(x *mc.Cell) {
 			}
 			defer n.Stop()
 			var wg sync.WaitGroup
-			for t := 0; t < 6; t++ {
+			for t := 0; t < 8; t++ {
+				t := t
 				wg.Add(1)
 				go func() {
 					defer wg.Done()
-					for k := 0; k < 2; k++ {
-						_, _ = n.Mgr.OpenPushDataChannel(context.Background(), doubles.PeerB, doubles.Voucher("T", "v"), doubles.Cid("root"), doubles.AllSelector())
+					for k := 0; k < 12; k++ {
+						// per-transfer subscribers, transport options and global (un)subscription are part of the opens' shared state
+						sub := datatransfer.WithSubscriber(func(e datatransfer.Event, st datatransfer.ChannelState) { _ = st.Status() })
+						var chid datatransfer.ChannelID
+						if (t+k)%2 == 0 {
+							chid, _ = n.Mgr.OpenPushDataChannel(context.Background(), doubles.PeerB, doubles.Voucher("T", "v"), doubles.Cid("root"), doubles.AllSelector(), sub)
+						} else {
+							chid, _ = n.Mgr.OpenPullDataChannel(context.Background(), doubles.PeerB, doubles.Voucher("T", "v"), doubles.Cid("root"), doubles.AllSelector(), sub)
+						}
+						if k%3 == 0 {
+							u := n.Mgr.SubscribeToEvents(func(datatransfer.Event, datatransfer.ChannelState) {})
+							_ = n.H().OnTransferInitiated
+							n.H().OnTransferInitiated(chid)
+							u()
+						}
+						if k%4 == 1 {
+							_ = n.Mgr.CloseDataTransferChannel(context.Background(), chid)
+						}
 					}
 				}()
 			}
